@@ -46,6 +46,10 @@ def elem_same(kind, single, coll_res, idx, G):
         arr = np.asarray(coll_res)
         nd = len(idx)
         if arr.ndim < nd:
+            # a result that broadcasts against the collection shape (e.g. a scalar False for "no position is collinear")
+            # still says at each position what the single call says
+            if kind != "arr" and arr.ndim == 0:
+                return same_result(kind, single, arr)
             return f"result has shape {arr.shape}, expected leading collection shape"
         return same_result(kind, single, arr[idx])
     if kind in ("obj", "poly"):
